@@ -10,7 +10,7 @@ import multiprocessing
 import os
 
 import vlib
-from wsched import Server
+from wsched import Server, threads_key
 
 _SRV = {}
 
@@ -21,7 +21,8 @@ def server_link(argv, cwd=None, env=None, wild=None, timeout=60):
     'WARNING: ...' lines), 101 (panic), 'timeout', or the exit status of a died server (negative =
     signal)."""
     wild = wild or vlib.WILD
-    key = (os.getpid(), wild)
+    # One server per distinct --threads value (the pool is sized by the first link).
+    key = (os.getpid(), wild, threads_key(argv))
     srv = _SRV.get(key)
     if srv is None:
         srv = _SRV[key] = Server(wild)
